@@ -497,12 +497,14 @@ def run_tie(run, cases, exe, src):
         stats["with_0x7f"] += ("\x7f" in t)
         stats["exotic_fold"] += any(ch in t for ch in EXOTIC.values())
         run.count(key, nontrivial=(ntags > 0 or a["protected"] != t))
-        roundtrip_monitor(coll, c, a)
+        bad = None
         if "expect" in c:
             stats["multi_region_texts"] = stats.get("multi_region_texts", 0) + 1
             bad = regions_monitor(c, a)
             if bad:
-                misattributed.append((c, bad[0]))
+                misattributed.append((c, bad[0]))      # minimised below
+        if not bad:
+            roundtrip_monitor(coll, c, a)
         if m is None:
             if exe:
                 dis.append("model driver error on %r" % t[:100])
@@ -566,7 +568,14 @@ def check(run):
                 "table cell, bold, each with and without a template universe, positional/named template argument, template body), thorough adds 16 "
                 "more (heading, link caption, definition list, div, italic, #if, nested template argument, table caption, blockquote, html list, "
                 "external link, image caption, cell with attributes, space-indented line, <ref> with/without wikidb); oracle: tree(context[body]) = tree(context[placeholder]) with the placeholder leaf replaced by the body. "
-                "tie: texts of 1..5 pieces (tag occurrence with attribute/termination/case variants, comment with newline/space borders, markup text, "
+                "multi-region pages: 2..4 protected regions on one page (6 layouts, regions on the page / in a template argument / in a template body, with and "
+                "without template universe) where each further region is with probability 3/4 RELATED to an earlier one -- a <nowiki>/<pre>/.. wrapped copy of "
+                "its complete source, the same body under another tag, the same tag+body with other attributes, the very same region -- in either order, plus a "
+                "systematic part (every base tag in the 6 opaque + ref, poem x every wrapper tag x both orders x 3 placements); every opaque region of a page is "
+                "the focus of one tree-oracle case (only its own body -> placeholder, copies keep their text) so each region is attributed separately. "
+                "tie: the same related-region pages as flat texts with '<'-free separators, where the regions are known by construction: the marker at the "
+                "place of region i must resolve to region i's own (tag, attributes, body, source) in the real table, and restore to its own source; "
+                "texts of 1..5 pieces (tag occurrence with attribute/termination/case variants, comment with newline/space borders, markup text, "
                 "marker-like strings) + a systematic tags x attribute forms x termination forms part. distinct = distinct input; "
                 "non-trivial = at least one region replaced (tie) / every search case (all bodies contain markup)")
     run.trusted = ["Coq 8.16.1 kernel (coqc); vm_compute for the table obligations and the Examples",
@@ -722,9 +731,9 @@ def check(run):
         else:
             m = c
         fp = "opacity:multi-region:%s:%s" % (m["tag"], json.dumps([m["raw"], m["db"]], sort_keys=True))
-        if fp in seen:
+        if m["raw"] in seen:
             continue
-        seen.add(fp)
+        seen.add(m["raw"])
         run.hit(fp, "page with several protected regions (%d failing cases): region <%s> body %r is not delivered verbatim / another region changes with it: %r: %s"
                 % (len(multi_failing), m["tag"], m["body"], m["raw"], r["why"][:200]), {"kind": "tree", "case": m, "why": r["why"]})
     run.coverage["search_outcomes"] = kinds
@@ -765,7 +774,10 @@ def replay(obj):
         rr = _Collect()
         roundtrip_monitor(rr, c, r)
         print("\n".join(w for w, _ in rr.hits.values()))
-        bad = bool(rr.hits) or "error" in r
+        mis = regions_monitor(c, r) if "expect" in c else None
+        if mis:
+            print("regions not attributed separately: " + mis[0])
+        bad = bool(rr.hits) or "error" in r or bool(mis)
     else:
         print(json.dumps(rp, indent=1))
         return 1
